@@ -80,6 +80,16 @@ Proof. exact b64_ok_partial. Qed.
 Theorem C07_base64_decode_either : forall s, inner_pad s = false -> base64_decode s = base64_either s.
 Proof. exact base64_decode_either. Qed.
 
+(* decoding inverts the RFC 4648 encoding: the crate's decoder on every unpadded base64url encoding (the form the
+   printer emits; used by C06), and the specification's groups on the encodings of both alphabets *)
+Theorem C07_b64_roundtrip : forall bs, wf_bytes bs -> base64_decode (base64_encode BASE64URL bs) = Some bs.
+Proof. exact b64_roundtrip. Qed.
+
+Theorem C07_spec_b64_decodes_encodings : forall bs, wf_bytes bs ->
+  base64_groups BASE64 (base64_encode BASE64 bs) = Some bs
+  /\ base64_groups BASE64URL (base64_encode BASE64URL bs) = Some bs.
+Proof. exact spec_b64_decodes_encodings. Qed.
+
 Theorem C07_b64_ok_refuted_ws : exists tok,
   bytes_b64_spelling tok = true /\ b64_lit tok = None /\ bytes_b64_model tok = Some [97].
 Proof. exact b64_ok_refuted_ws. Qed.
